@@ -10,6 +10,18 @@
 //	inject   (build tag verif, inject_verif_test.go) the notify reader with the
 //	         kernel watch removed: the harness is the fsnotify goroutine's
 //	         input and owns the notification schedule.
+//	cli      (cli_test.go) the same histories, in whole lines, through the rare
+//	         binary: `rare filter -f|-F [--poll] [--tail] --batch N -w 1 <path>`
+//	         with stdout a pipe read by the harness.
+//
+// Two environment classes are part of the histories of the reader, batcher
+// and cli layers (the statement quantifies over histories of the followed
+// path; nothing else in its directory, and no way of naming it, may change
+// the stream): the followed path is a symbolic link to the real file (files
+// that stay in place: appends, pauses, syncs only), and
+// neighbour files in the same directory whose names have the followed name
+// as a suffix / as a prefix are created, appended to, removed and re-created
+// between the operations on the followed file.
 //
 // Oracles, all tied to the statement:
 //
@@ -64,7 +76,14 @@ const (
 	kRemove   = "remove"   // remove-after-drain; N = microseconds the events may settle while the consumer is held
 	kRecreate = "recreate" // create the file again at the same path and append N bytes
 	kDeliver  = "deliver"  // inject layer: hand the next N queued events to the watcher goroutine
+	kNbr      = "nbr"      // neighbour file N (0: name ends with the followed name, 1: starts with it): M=0 append G bytes (creating it), M=1 remove it
 )
+
+// names of the neighbour files, relative to the name of the followed file
+var nbrName = [2]func(base string) string{
+	func(base string) string { return "ssl_" + base },
+	func(base string) string { return base + ".1" },
+}
 
 type Op struct {
 	K string
@@ -84,6 +103,13 @@ type Hist struct {
 	Batch    int  `json:",omitempty"` // batcher: batch size
 	BatchBuf int  `json:",omitempty"` // batcher: channel buffer
 	Coalesce bool `json:",omitempty"` // inject: identical consecutive queued events collapse into one (inotify does that)
+	Link     bool `json:",omitempty"` // the followed path is a symbolic link to the real file (which stays in place)
+	LinkOut  bool `json:",omitempty"` // the real file lives in another directory than the link
+	LinkSame bool `json:",omitempty"` // ... and has the same name there as the link
+	RelPath  bool `json:",omitempty"` // cli: the path is given relative to the working directory of the process
+	LinkAbs  bool `json:",omitempty"` // the link holds the absolute path of the real file (else a relative one)
+	Nbr      bool `json:",omitempty"` // neighbour files take part (kNbr operations)
+	NbrInit  int  `json:",omitempty"` // bit k: neighbour k exists, with content, before the follow starts
 	Ops      []Op
 }
 
@@ -139,6 +165,17 @@ func (s *stream) upto(n int) {
 func (s *stream) slice(off, n int) []byte {
 	s.upto(off + n)
 	return s.buf[off : off+n : off+n]
+}
+
+// linesLen returns how many bytes n complete records take from offset off
+// (a record boundary).
+func (s *stream) linesLen(off, n int) int {
+	end := off
+	for ; n > 0; n-- {
+		s.upto(end + 200)
+		end += bytes.IndexByte(s.buf[end:], '\n') + 1
+	}
+	return end - off
 }
 
 // toNewline returns how many bytes are missing at offset off to complete the
@@ -296,14 +333,22 @@ type stats struct {
 	bothPending, coalesced, droppedEv         int
 	forcedSync, padded, clamped, eof, batches int
 	bytes, maxBacklog                         int
+	nbrOps, nbrCreates, nbrRecreates          int
+	nbrRemoves                                [2]int
+	linesOut                                  int
+	link, linkOut, linkSame, cli              bool
 	ran                                       bool
 }
 
 func (s *stats) nontrivial() bool {
+	if s.cli {
+		// the consumer is another process: >= 2 appends, all lines seen on stdout
+		return s.ran && s.appends >= 2 && s.linesOut >= 2
+	}
 	if !s.ran || s.appends < 3 || s.appendsIdle < 1 || s.appendsBusy < 1 {
 		return false
 	}
-	if strings.Contains(s.mode, "reopen") {
+	if strings.Contains(s.mode, "reopen") && !s.link { // a linked file stays in place
 		return s.rotations >= 1 && s.appendsAfterRot >= 2
 	}
 	return true
@@ -314,7 +359,12 @@ type run struct {
 	h           Hist
 	st          *stats
 	dir         string
-	path        string
+	path        string // the followed path
+	real        string // the file behind it (== path unless the history follows a symbolic link)
+	nbrW        [2]*os.File
+	nbrGone     [2]bool
+	nbrSeq      int
+	cli         *cliProc
 
 	w        *os.File // the appending writer of the current incarnation
 	exists   bool
@@ -468,6 +518,35 @@ func (r *run) consume(rd io.Reader) {
 	}
 }
 
+// lines: the layer delivers complete lines (batcher, cli), not bytes.
+func (r *run) lines() bool { return r.h.Layer == "batcher" || r.h.Layer == "cli" }
+
+// recordLine verifies one delivered line (without its '\n') against the
+// expected stream (mu held).
+func (r *run) recordLine(line []byte) {
+	if r.bad != nil {
+		return
+	}
+	if r.dl >= len(r.lineEnds) {
+		what := ""
+		if i := bytes.Index(r.expected[:r.delivered], append(append([]byte{}, line...), '\n')); i >= 0 && len(line) > 0 {
+			what = fmt.Sprintf(" -- DUPLICATION: this line was already delivered (offset %d of the stream)", i)
+		}
+		r.bad = fmt.Errorf("line %d delivered as %s, but only %d complete line(s) were appended so far (stream tail %s)%s",
+			r.dl+1, pbt.Q(firstN(line, 80)), len(r.lineEnds), pbt.Q(r.expected[r.delivered:]), what)
+		return
+	}
+	want := r.expected[r.delivered : r.lineEnds[r.dl]-1]
+	if !bytes.Equal(want, line) {
+		r.bad = fmt.Errorf("line %d: got %s want %s", r.dl+1, pbt.Q(firstN(line, 80)), pbt.Q(firstN(want, 80)))
+		return
+	}
+	r.delivered = r.lineEnds[r.dl]
+	r.dl++
+	r.st.linesOut++
+	r.lastDel = time.Now()
+}
+
 // consumeBatches is the consumer of the batcher layer.
 func (r *run) consumeBatches() {
 	for b := range r.bat.BatchChan() {
@@ -486,19 +565,7 @@ func (r *run) consumeBatches() {
 				if r.bad != nil {
 					break
 				}
-				if r.dl >= len(r.lineEnds) {
-					r.bad = fmt.Errorf("line %d delivered as %s, but only %d complete line(s) were appended so far (stream tail %s)",
-						r.dl+1, pbt.Q(firstN(line, 80)), len(r.lineEnds), pbt.Q(r.expected[r.delivered:]))
-					break
-				}
-				want := r.expected[r.delivered : r.lineEnds[r.dl]-1]
-				if !bytes.Equal(want, line) {
-					r.bad = fmt.Errorf("line %d: got %s want %s", r.dl+1, pbt.Q(firstN(line, 80)), pbt.Q(firstN(want, 80)))
-					break
-				}
-				r.delivered = r.lineEnds[r.dl]
-				r.dl++
-				r.lastDel = time.Now()
+				r.recordLine(line)
 			}
 		}
 		r.mu.Unlock()
@@ -517,14 +584,14 @@ func (r *run) bound() time.Duration { return 5*time.Second + 4*r.designed }
 // up to Batch-1 complete lines, and always the unterminated tail, until more
 // input or the end of the stream arrives (docs/usage/input.md, batch sizes).
 func (r *run) drained() bool {
-	if r.h.Layer == "batcher" {
+	if r.lines() {
 		return r.dl >= len(r.lineEnds)-(r.h.Batch-1)
 	}
 	return r.delivered == len(r.expected)
 }
 
 func (r *run) fullyDrained() bool {
-	if r.h.Layer == "batcher" {
+	if r.lines() {
 		return r.dl == len(r.lineEnds) && (len(r.lineEnds) == 0 && len(r.expected) == 0 || len(r.lineEnds) > 0 && r.lineEnds[len(r.lineEnds)-1] == len(r.expected))
 	}
 	return r.delivered == len(r.expected)
@@ -584,6 +651,9 @@ func (r *run) waitFor(what string, pred func() bool, endOK bool) error {
 	if r.inj != nil && !r.gone {
 		pw, pd := r.inj.VerifPending()
 		state += fmt.Sprintf(", pending signals write=%d delete=%d, undelivered events=%d", pw, pd, len(r.evq))
+	}
+	if r.cli != nil {
+		state += r.cliState()
 	}
 	if s, why := starved(t0); s {
 		return errInconclusive{fmt.Sprintf("%s: not done after %v, but the process was starved (%s)", what, bound, why)}
@@ -716,6 +786,65 @@ func (r *run) deliverAll() {
 
 // ---- file operations ------------------------------------------------------------------
 
+// amount: the cli layer appends whole lines (N counts records), the other
+// layers bytes.
+func (r *run) amount(n int) int {
+	if r.h.Layer == "cli" && r.exists && n > 0 {
+		return r.str.linesLen(r.incSize, n)
+	}
+	return n
+}
+
+// nbrOp works on a neighbour of the followed file: same directory, a name
+// that ends with (which=0) or starts with (which=1) the followed name. The
+// expected stream of the followed file does not change.
+func (r *run) nbrOp(which, action, n int) error {
+	if !r.h.Nbr || which < 0 || which > 1 {
+		return nil
+	}
+	p := filepath.Join(r.dir, nbrName[which](filepath.Base(r.path)))
+	switch action {
+	case 0:
+		if r.nbrW[which] == nil {
+			w, err := os.OpenFile(p, os.O_CREATE|os.O_EXCL|os.O_APPEND|os.O_WRONLY, 0o644)
+			if err != nil {
+				return errInconclusive{"harness could not create a neighbour file: " + err.Error()}
+			}
+			r.nbrW[which] = w
+			r.st.nbrCreates++
+			if r.nbrGone[which] {
+				r.st.nbrRecreates++
+			}
+		}
+		if n < 1 {
+			n = 1
+		}
+		var data []byte
+		for len(data) < n {
+			r.nbrSeq++
+			data = append(data, fmt.Sprintf("neighbour %d line %d, not part of the followed file\n", which, r.nbrSeq)...)
+		}
+		data = data[:n]
+		data[n-1] = '\n'
+		if _, err := r.nbrW[which].Write(data); err != nil {
+			return errInconclusive{"harness could not append to a neighbour file: " + err.Error()}
+		}
+	case 1:
+		if r.nbrW[which] == nil {
+			return nil
+		}
+		r.nbrW[which].Close()
+		r.nbrW[which] = nil
+		if err := os.Remove(p); err != nil {
+			return errInconclusive{"harness could not remove a neighbour file: " + err.Error()}
+		}
+		r.nbrGone[which] = true
+		r.st.nbrRemoves[which]++
+	}
+	r.st.nbrOps++
+	return nil
+}
+
 func (r *run) appendBytes(n int) error {
 	if !r.exists || n <= 0 {
 		return nil
@@ -777,7 +906,12 @@ func (r *run) remove(settleUs int, recreateAtOnce bool) error {
 	if !r.exists {
 		return nil
 	}
-	if r.h.Layer == "batcher" {
+	if r.h.Link {
+		// what removal means through a link is not fixed by the statement
+		pbt.Exclude("remove-of-a-followed-symlink")
+		return nil
+	}
+	if r.lines() {
 		// lines must not straddle the removal: complete the record
 		if k := r.str.toNewline(r.incSize); k > 0 {
 			r.st.padded++
@@ -789,7 +923,7 @@ func (r *run) remove(settleUs int, recreateAtOnce bool) error {
 	// remove-after-drain. A consumer that is being held stays held when
 	// everything is delivered already (slow caller during a rotation).
 	r.mu.Lock()
-	wantHeld := r.holdReq && r.h.Layer != "batcher"
+	wantHeld := r.holdReq && !r.lines()
 	r.mu.Unlock()
 	if wantHeld {
 		// give the consumer a moment to deliver the rest and reach the gate
@@ -888,7 +1022,10 @@ func (r *run) recreate(n int, byRename bool) error {
 		n = 1
 	}
 	str := &stream{inc: r.inc + 1}
-	if r.h.Layer == "batcher" {
+	if r.h.Layer == "cli" {
+		n = str.linesLen(0, n) // whole lines
+	}
+	if r.lines() {
 		// the batcher shows complete lines only: the first append completes
 		// a record, so that "the poller has noticed the new file" is observable
 		n += str.toNewline(n)
@@ -896,7 +1033,7 @@ func (r *run) recreate(n int, byRename bool) error {
 	if r.h.Poll {
 		if n >= r.prevDel {
 			n = r.prevDel - 1
-			if r.h.Layer == "batcher" {
+			if r.lines() {
 				n = 1 + str.toNewline(1)
 			}
 			r.st.clamped++
@@ -966,13 +1103,51 @@ func (r *run) start() error {
 	}
 	r.dir = dir
 	r.path = filepath.Join(dir, "followed.log")
+	r.real = r.path
 	r.str = &stream{inc: 0}
-	w, err := os.OpenFile(r.path, os.O_CREATE|os.O_EXCL|os.O_APPEND|os.O_WRONLY, 0o644)
+	if r.h.Link {
+		// followed.log -> app-2026-09-30.log, in the same directory or in
+		// another one (there possibly under the name of the link), named
+		// relatively or absolutely
+		target := "app-2026-09-30.log"
+		if r.h.LinkOut && r.h.LinkSame {
+			target = filepath.Base(r.path)
+		}
+		if r.h.LinkOut {
+			if err := os.Mkdir(filepath.Join(dir, "store"), 0o755); err != nil {
+				return errInconclusive{"scratch: " + err.Error()}
+			}
+			target = filepath.Join("store", target)
+		}
+		r.real = filepath.Join(dir, target)
+		if r.h.LinkAbs {
+			target = r.real
+		}
+		if err := os.Symlink(target, r.path); err != nil {
+			return errInconclusive{"scratch: " + err.Error()}
+		}
+		r.st.link, r.st.linkOut, r.st.linkSame = true, r.h.LinkOut, r.h.LinkOut && r.h.LinkSame
+	}
+	w, err := os.OpenFile(r.real, os.O_CREATE|os.O_EXCL|os.O_APPEND|os.O_WRONLY, 0o644)
 	if err != nil {
 		return errInconclusive{"scratch: " + err.Error()}
 	}
 	r.w = w
 	r.exists = true
+	if r.h.Nbr {
+		for k := 0; k < 2; k++ {
+			if r.h.NbrInit&(1<<k) != 0 {
+				if err := r.nbrOp(k, 0, 40+25*k); err != nil {
+					return err
+				}
+				r.st.nbrOps-- // part of the initial state, not an operation
+			}
+		}
+	}
+	if r.h.Layer == "cli" {
+		r.st.cli = true
+		r.h.Initial = r.str.linesLen(0, r.h.Initial) // whole lines
+	}
 	if r.h.Initial > 0 {
 		init := r.str.slice(0, r.h.Initial)
 		if _, err := w.Write(init); err != nil {
@@ -1050,6 +1225,11 @@ func (r *run) start() error {
 				time.Sleep(200 * time.Microsecond)
 			}
 			r.bat = bat
+		case "cli":
+			if r.h.Poll {
+				r.designed = 1500 * time.Millisecond // 250ms PollDelay x (5 read attempts + 1)
+			}
+			return r.startCLI()
 		}
 		return nil
 	}
@@ -1071,6 +1251,9 @@ func (r *run) start() error {
 			return errInconclusive{"no inotify instance available after 30s: " + err.Error()}
 		}
 		time.Sleep(100 * time.Millisecond)
+	}
+	if r.h.Layer == "cli" {
+		return nil // the reader of stdout was started with the process
 	}
 	if r.h.Layer == "batcher" {
 		if r.h.Tail && r.bat.ReadErrors() > 0 {
@@ -1107,6 +1290,16 @@ func (r *run) stop() {
 			r.slot = false
 		}
 		os.RemoveAll(r.dir)
+	}
+	for k := range r.nbrW {
+		if r.nbrW[k] != nil {
+			r.nbrW[k].Close()
+		}
+	}
+	if r.cli != nil {
+		r.stopCLI()
+		finish()
+		return
 	}
 	if r.rd == nil && r.bat == nil {
 		finish()
@@ -1189,6 +1382,15 @@ func runHist(h Hist, st *stats) (err error) {
 	r := &run{h: h, st: st, wake: make(chan struct{}, 1), lastDel: time.Now()}
 	r.gate = sync.NewCond(&r.mu)
 	defer r.stop()
+	defer func() {
+		// a rare process that ended for lack of a machine resource (inotify
+		// instance, descriptor, thread) decides nothing
+		if err != nil && r.cli != nil {
+			if why := r.cli.infra(); why != "" {
+				err = errInconclusive{fmt.Sprintf("the rare process reported %q: %v", why, err)}
+			}
+		}
+	}()
 	if err := r.start(); err != nil {
 		return err
 	}
@@ -1199,10 +1401,10 @@ func runHist(h Hist, st *stats) (err error) {
 		var e error
 		switch op.K {
 		case kAppend:
-			e = r.appendBytes(op.N)
+			e = r.appendBytes(r.amount(op.N))
 		case kBurst:
 			for j := 0; j < op.N && e == nil; j++ {
-				e = r.appendBytes(op.M)
+				e = r.appendBytes(r.amount(op.M))
 				if r.inj != nil {
 					r.deliver(1)
 				}
@@ -1213,7 +1415,7 @@ func runHist(h Hist, st *stats) (err error) {
 		case kSync:
 			e = r.drain(fmt.Sprintf("sync (op %d)", i))
 		case kHold:
-			if h.Layer != "batcher" {
+			if !r.lines() {
 				r.mu.Lock()
 				r.holdReq = true
 				r.mu.Unlock()
@@ -1226,6 +1428,8 @@ func runHist(h Hist, st *stats) (err error) {
 			e = r.recreate(op.N, op.M == 1)
 		case kDeliver:
 			r.deliver(op.N)
+		case kNbr:
+			e = r.nbrOp(op.N, op.M, op.G)
 		}
 		if e != nil {
 			return e
@@ -1249,6 +1453,20 @@ func runHist(h Hist, st *stats) (err error) {
 	if !over {
 		if err := r.drain("final sync"); err != nil {
 			return err
+		}
+		if st.nbrOps > 0 {
+			// observation window, not a verdict: a reaction of the reader to the
+			// last neighbour operation (ending, re-delivering) takes a moment to
+			// surface at the consumer
+			for t0 := time.Now(); time.Since(t0) < 3*time.Millisecond; {
+				r.mu.Lock()
+				seen := r.bad != nil || r.ended
+				r.mu.Unlock()
+				if seen {
+					break
+				}
+				time.Sleep(200 * time.Microsecond)
+			}
 		}
 		r.mu.Lock()
 		bad, ended, endErr := r.bad, r.ended, r.endErr
@@ -1330,6 +1548,14 @@ func check(c Case) error {
 			l(s.droppedEv > 0, "event-dropped(path-gone)")
 			l(s.maxBacklog > 4096, "backlog>4KiB")
 			l(s.bytes > 20000, "bytes>20k")
+			l(s.link, "followed-path-is-a-symlink")
+			l(s.link && strings.HasPrefix(s.mode, "notify"), "followed-path-is-a-symlink(notify)")
+			l(s.linkOut, "symlink-to-another-directory")
+			l(s.linkSame, "symlink-to-another-directory(same-name)")
+			l(s.nbrOps > 0, "neighbour-file-ops")
+			l(s.nbrRemoves[0] > 0, "neighbour-removed(name-has-followed-name-as-suffix)")
+			l(s.nbrRemoves[1] > 0, "neighbour-removed(name-has-followed-name-as-prefix)")
+			l(s.nbrRecreates > 0, "neighbour-re-created")
 			l(s.nontrivial(), "nontrivial-history")
 		}
 	}
@@ -1377,6 +1603,9 @@ func genHist(t *rapid.T, layer string) Hist {
 		h.Poll = true // see batcherNotifyReopenQuota
 	}
 	h.Tail = rapid.Bool().Draw(t, "tail")
+	if layer != "inject" { // the inject layer has no kernel watch: nothing but the followed path reports
+		genEnv(t, &h)
+	}
 	h.Initial = pick(t, "initial", [2]int{0, 0}, [2]int{1, 40}, [2]int{100, 3000})
 	maxOps := 22
 	switch layer {
@@ -1397,6 +1626,10 @@ func genHist(t *rapid.T, layer string) Hist {
 	}
 	slow := layer != "inject"
 	withRemove := layer != "batcher" || rapid.IntRange(0, 3).Draw(t, "rot") > 0
+	if h.Link {
+		withRemove = false // the file stays in place
+	}
+	nbrOp := genNbr(t, &h)
 	h.Batch = 0
 	if layer == "batcher" {
 		h.Batch = 1
@@ -1447,10 +1680,19 @@ func genHist(t *rapid.T, layer string) Hist {
 			if layer == "inject" && rapid.IntRange(0, 2).Draw(t, "dl") == 0 {
 				add(Op{K: kDeliver, N: rapid.IntRange(1, 3).Draw(t, "n")})
 			}
+			if h.Nbr && rapid.IntRange(0, 2).Draw(t, "nbr-in-gap") == 0 {
+				add(nbrOp())
+			}
 			recreateOp()
 			continue
 		}
-		switch k := rapid.IntRange(0, 19).Draw(t, "op"); {
+		hi := 19
+		if h.Nbr {
+			hi = 25
+		}
+		switch k := rapid.IntRange(0, hi).Draw(t, "op"); {
+		case k >= 20:
+			add(nbrOp())
 		case k <= 5:
 			appendOp()
 		case k <= 7:
@@ -1529,6 +1771,41 @@ func genHist(t *rapid.T, layer string) Hist {
 	return h
 }
 
+// genEnv draws the environment class of a history: the file alone (as the
+// statement describes it), the followed path a symbolic link to the file, or
+// neighbour files in its directory.
+func genEnv(t *rapid.T, h *Hist) {
+	switch e := rapid.IntRange(0, 7).Draw(t, "env"); {
+	case e <= 1:
+		h.Link = true
+		h.LinkAbs = rapid.Bool().Draw(t, "link-abs")
+		h.LinkOut = rapid.Bool().Draw(t, "link-out")
+		if h.LinkOut {
+			h.LinkSame = rapid.IntRange(0, 2).Draw(t, "link-same-name") == 0
+		}
+	case e <= 4:
+		h.Nbr = true
+		h.NbrInit = rapid.IntRange(0, 3).Draw(t, "nbr-init")
+	}
+}
+
+// genNbr returns the generator of neighbour operations of a history: append
+// (creating the neighbour when it is absent) or remove (when it exists). Two
+// of three operations go to the neighbour whose name ends with the followed
+// name.
+func genNbr(t *rapid.T, h *Hist) func() Op {
+	exists := [2]bool{h.NbrInit&1 != 0, h.NbrInit&2 != 0}
+	return func() Op {
+		which := rapid.IntRange(0, 2).Draw(t, "nbr") / 2 // 0,0,1
+		if exists[which] && rapid.IntRange(0, 2).Draw(t, "nbr-remove") > 0 {
+			exists[which] = false
+			return Op{K: kNbr, N: which, M: 1}
+		}
+		exists[which] = true
+		return Op{K: kNbr, N: which, M: 0, G: pick(t, "nbr-len", [2]int{1, 40}, [2]int{41, 3000})}
+	}
+}
+
 func genBundle(layer string, lo, hi int) func(t *rapid.T) Case {
 	return func(t *rapid.T) Case {
 		c := Case{Obs: pbt.NewObs()}
@@ -1542,11 +1819,13 @@ func genBundle(layer string, lo, hi int) func(t *rapid.T) Case {
 
 // ---------- specs ----------------------------------------------------------------------------------
 
+const envText = " x environment {the file alone 3/8 | the followed path is a symbolic link to the file (same or other directory, there possibly under the same name, relative or absolute target; appends/pauses/syncs only) 2/8 | neighbour files in the same directory, one whose name ends with the followed name and one whose name starts with it, are created, appended to, removed and re-created between the operations (and may exist beforehand) 3/8}: the expected stream does not change; "
+
 const oracleText = "oracle: delivered is always a prefix of the appended stream (position-identifying content; after a re-create the new file from its beginning); at every sync and at the end everything is delivered (bound 5s + 4x designed poll sleep, violation only for a stable stuck state re-checked for 2x the bound with the machine not starved, else inconclusive); no EOF/error while the file exists; plain follow returns io.EOF after remove-after-drain, re-open follow keeps blocking. Non-trivial history: >=3 appends, >=1 while the reader was blocked and >=1 while it had a backlog, re-open: >=1 rotation followed by >=2 appends; a case (bundle of concurrent histories) is non-trivial if one of its histories is; labels are counted per history"
 
 var readerSpec = pbt.Spec[Case]{
 	Property: "C15", Name: "reader",
-	Rule:   "bundles of 6-10 concurrent stateful histories {append, burst, pause 0-30ms, sync, hold/release of the consumer, remove-after-drain, re-create(+first append)} on a real file x {notify, poll with PollDelay 0.3-2ms} x {reopen, plain} x {tail, from start} x Read buffer 1B..64KiB, through followreader.New; " + oracleText,
+	Rule:   "bundles of 6-10 concurrent stateful histories {append, burst, pause 0-30ms, sync, hold/release of the consumer, remove-after-drain, re-create(+first append)} on a real file x {notify, poll with PollDelay 0.3-2ms} x {reopen, plain} x {tail, from start} x Read buffer 1B..64KiB, through followreader.New;" + envText + oracleText,
 	Budget: pbt.Budget{Quick: 1600, Thorough: 24000},
 	Gen:    genBundle("reader", 6, 10), Check: check, Classify: classify,
 	Watchdog: 10 * time.Minute, NoWatchdogViolation: true,
@@ -1570,7 +1849,7 @@ func TestReader(t *testing.T) {
 
 var batcherSpec = pbt.Spec[Case]{
 	Property: "C15", Name: "batcher",
-	Rule:   "bundles of 6-10 concurrent histories {append, burst, pause, sync, remove-after-drain (file padded to a line end), re-create} through batchers.TailFilesToChan x {notify, poll (250ms)} x {reopen, plain} x {tail, from start} x batch size {1 | 1,2,3,5,1000 without removal} x channel buffer {0,1,4}; lines must be the '\\n'-split of the expected byte stream in order, batch source = path, 1<=len<=batch size, BatchStart = lines delivered before + 1 (until the first rotation), at sync at most batch-1 complete lines may be pending, channel closes after plain removal; " + oracleText,
+	Rule:   "bundles of 6-10 concurrent histories {append, burst, pause, sync, remove-after-drain (file padded to a line end), re-create} through batchers.TailFilesToChan x {notify, poll (250ms)} x {reopen, plain} x {tail, from start} x batch size {1 | 1,2,3,5,1000 without removal} x channel buffer {0,1,4}; lines must be the '\\n'-split of the expected byte stream in order, batch source = path, 1<=len<=batch size, BatchStart = lines delivered before + 1 (until the first rotation), at sync at most batch-1 complete lines may be pending, channel closes after plain removal;" + envText + oracleText,
 	Budget: pbt.Budget{Quick: 128, Thorough: 1600},
 	Gen:    genBundle("batcher", 6, 10), Check: check, Classify: classify,
 	Watchdog: 10 * time.Minute, NoWatchdogViolation: true,
